@@ -8,7 +8,9 @@ import itertools
 import random
 
 from gen import H, O
-from vlib import run_driver, coq_eval, cb
+import concurrent.futures
+
+from vlib import run_driver, coq_eval, cb, unhex
 
 COQ_TARGETS = ("theories/FSModel.vo", "theories/Symlinks.vo", "theories/OpathM.vo", "proofs/SymlinkProofs.vo")
 UIDS = [0, 2000, 3000, 4000]
@@ -31,6 +33,60 @@ def tree_for(dmode, duid, luid):
 
 POSITIONS = {"trailing": "d/lnk", "intermediate": "d/dlnk/f", "trailing-of-body": "d/ll",
              "trailing-with-slash": "d/dlnk/", "trailing-with-slashes": "d/dlnk//", "before-dot": "d/dlnk/."}
+
+
+def first_read_fails(ck, rng, stats):
+    """The library reads the sysctl at first use and caches it.  A transient failure of that first read must not change what
+    later lookups do: in a fresh process the warm-up lookup (through a trailing link, emulated backend) gets one fault at every
+    call around its read of /proc/sys/fs/protected_symlinks; the lookups that follow must answer as in the unfaulted process."""
+    combos = [(0o1777, 0, 3000, 2000, "trailing"), (0o1777, 0, 3000, 2000, "trailing-of-body"), (0o1777, 0, 2000, 2000, "trailing"),
+              (0o1777, 0, 3000, 2000, "intermediate"), (0o777, 0, 3000, 2000, "trailing")]
+    jobs = [{"id": i + 1, "tree": tree_for(dm, du, lu), "op": {"k": "resolve", "path": H(POSITIONS[pos])}, "as_uid": ca}
+            for i, (dm, du, lu, ca, pos) in enumerate(combos)]
+    rc, out, base = run_driver(jobs, deny=("openat2",), tag="c15f")
+    warm = next((r for r in base if r.get("id") == "warmup"), None)
+    want = {r["id"]: outcome(r.get("res", {})) for r in base if r.get("id") != "warmup"}
+    if not warm or "trace" not in warm or "err:13" not in want.values():
+        return
+    tr = warm["trace"]
+    hits = [e["i"] for e in tr if b"protected_symlinks" in unhex(e.get("path", "")) or unhex(e.get("path", "")) in (b"sys", b"fs")]
+    if not hits:
+        return
+    lo, hi = max(0, min(hits) - 3), min(len(tr) - 1, max(hits) + 8)
+    thorough = ck.tier == "thorough"
+    plan = [(at, en) for at in range(lo, hi + 1) for en in ((24, 5, 12, 4) if thorough else (24, 5))]
+    if not thorough:
+        # always the calls that name the sysctl itself and their neighbours; a sample of the rest
+        core = {i + d for i in hits for d in (0, 1, 2, 3) if b"protected_symlinks" in unhex(tr[i].get("path", ""))}
+        plan = [p_ for p_ in plan if p_[0] in core] + rng.sample([p_ for p_ in plan if p_[0] not in core], 12)
+
+    def one(arg):
+        at, en = arg
+        return at, en, run_driver(jobs, deny=("openat2",), tag="c15f%d_%d" % (at, en), extra_args=["--warm-fault", "%d:%d" % (at, en)], timeout=120)
+    with concurrent.futures.ThreadPoolExecutor(max_workers=8) as ex:
+        for at, en, (rc_, out_, res_) in ex.map(one, plan):
+            got = {r["id"]: outcome(r.get("res", {})) for r in res_ if r.get("id") != "warmup"}
+            stats["first_read_faults"] = stats.get("first_read_faults", 0) + 1
+            if not got:
+                ck.violation("C15: the process did not survive a single fault during the first read of fs.protected_symlinks",
+                             {"fault_at_call": at, "errno": en, "call": tr[at]["c"], "rc": rc_, "out": out_[-300:]})
+                continue
+            for jid, w in want.items():
+                if got.get(jid) != w:
+                    dm, du, lu, ca, pos = combos[jid - 1]
+                    ck.violation("C15: after one failed read of fs.protected_symlinks (at first use) later lookups no longer follow the kernel's rule",
+                                 {"fault_at_call": at, "errno": en, "faulted_call": {k: v for k, v in tr[at].items() if k in ("c", "path", "fd")},
+                                  "sysctl": 1, "dir_mode": oct(dm), "dir_uid": du, "link_uid": lu, "caller_uid": ca, "position": pos,
+                                  "path": POSITIONS[pos], "unfaulted_process": w, "after_the_fault": got.get(jid)})
+                    break
+
+
+def outcome(r):
+    if "ok" in r:
+        return "ok"
+    if "err" in r:
+        return "err:%s" % r["err"]["errno"]
+    return str(r)[:40]
 
 
 def run(ck):
@@ -91,6 +147,8 @@ def run(ck):
                 term = (f"[if k_may_follow {sysctl} {caller} {dmode} {duid} {luid} (k_trailing {rest}) then 1%Z else 0%Z; "
                         f"if emu_may_follow {sysctl} {caller} {dmode} {duid} {luid} (ps_trailing {rest}) then 1%Z else 0%Z]")
                 cases.append((len(cases), term, ckn, ce, desc))
+            if sysctl == 1:
+                first_read_fails(ck, rng, stats)
     finally:
         open(SYSCTL, "w").write(saved)
     if not ck.proof_broken:
@@ -114,6 +172,7 @@ def run(ck):
                 "x link position {trailing, intermediate, trailing of a trailing link's body, trailing + '/', trailing + '//', before '/.'} x sysctl {1, 0} = 1296 combinations, all run: emulated "
                 "backend as that uid vs the kernel's raw openat2 as that uid vs the Coq rules; distinct by (all parameters, kernel outcome)",
         "samples": samples or [{"note": "none"}],
+        "first_read_fault_runs": stats.get("first_read_faults", 0),
         "kernel_refusals": stats["kernel_eacces"], "emulated_refusals": stats["emu_eacces"], "rule_evaluations_in_coq": stats["rule_checked"],
         "traces_validated_against_impl": stats["rule_checked"], "disagreements_checked": 0,
     }
